@@ -341,7 +341,19 @@ fn streams(c: &Corpus, chk: &mut Check, tier: Tier) {
 
 fn typed_streams(c: &Corpus, chk: &mut Check, tier: Tier, ep: &dyn Ep, ts: &TypedSet, salt: u64) {
     let seed = chk.seed;
-    let pool = build_pool(c, ep, seed, 3, Some(ts.names));
+    let mut pool = build_pool(c, ep, seed, 3, Some(ts.names));
+    // frames on both sides of the 2/3-byte header boundary (the typed helpers parse the header themselves)
+    if let Ns::World(exp) = ep.ns() {
+        let warden = if ep.dir() == Direction::Server { "SMSG_WARDEN_DATA" } else { "CMSG_WARDEN_DATA" };
+        let sizes: &[usize] = if ep.dir() == Direction::Server { &[0x7FF0, 0x7FFD, 0x7FFE, 0x8000, 0x9000] } else { &[0x2000] };
+        for n in sizes {
+            if let Ok(f) = typed::warden_write(exp, ep.dir(), *n) {
+                if let Outcome::Ok { debug, .. } = ep.read_one(&f) {
+                    pool.frames.push((warden.to_string(), f, debug));
+                }
+            }
+        }
+    }
     let missing: Vec<&str> = ts.names.iter().copied().filter(|n| !pool.frames.iter().any(|f| f.0 == *n)).collect();
     if !missing.is_empty() {
         chk.extra.insert(format!("typed_set_names_without_frames.{}", ep.label()), json!(missing));
